@@ -1,5 +1,5 @@
 (** Extraction of the replysites engine (call-site models + boolean spec checkers) to OCaml.
     Directives: ExtrOcamlBasic only. *)
 From Coq Require Import ExtrOcamlBasic.
-From Qv Require Import Common.Bytes Common.ReplyTpl Model.NetWriten Model.ReplySites Spec.ReplySpec Spec.ReplySitesSpec.
-Extraction "m.ml" site_model literal_model cb_nomail class_of_letter case_pre spec_ok_site spec_ok_nomail spec_ok_literal wait_for_quit spec_ok_stream.
+From Qv Require Import Common.Bytes Common.ReplyTpl Gen.GenReplies Model.NetWriten Model.ReplySites Spec.ReplySpec Spec.ReplySitesSpec.
+Extraction "m.ml" site_model literal_model cb_nomail class_of_letter case_pre spec_ok_site spec_ok_nomail spec_ok_literal wait_for_quit spec_ok_stream smtp_data_model FN_smtp_data.
